@@ -1,4 +1,5 @@
 pub mod c01;
+pub mod c06;
 
 use crate::runner::{load_replay, run_replay_tier, Ctx, Outcome};
 use serde_json::Value;
@@ -9,6 +10,7 @@ type Run = fn(&Ctx);
 fn table(id: &str) -> Option<(Run, Judge, &'static str, &'static [&'static str])> {
     match id {
         "C01" => Some((c01::run, c01::judge, c01::RULE, c01::ASSUMPTIONS)),
+        "C06" => Some((c06::run, c06::judge, c06::RULE, c06::ASSUMPTIONS)),
         _ => None,
     }
 }
@@ -62,6 +64,19 @@ pub fn dispatch(ctx: &Ctx, replay: Option<&str>) -> i32 {
 }
 
 pub fn render_case(case: &Value) {
+    if let Ok(h) = serde_json::from_value::<crate::hist::History>(case.clone()) {
+        let cfg = crate::props::c06::cfg();
+        let mut it = crate::hist::Interp::new(&cfg, &h.ws);
+        for s in &h.steps {
+            it.apply(s);
+        }
+        for (k, (fi, text, valid)) in it.sent.iter().enumerate() {
+            println!("==== send #{} {} valid={}", k, it.files[*fi].loc.rel(), valid);
+            print!("{}", text);
+        }
+        println!("steps: {:?}", h.steps);
+        return;
+    }
     if let Ok(ws) = serde_json::from_value::<crate::spec::WorkspaceSpec>(case.get("ws").cloned().unwrap_or(case.clone())) {
         for f in &ws.files {
             println!("==== {} ({})", f.loc.rel(), f.loc.path());
